@@ -33,12 +33,18 @@ for i in 1 2; do
 done
 [ $suite_ok = 1 ] || { res "REJECT existing suite notices the change: $(echo $bad | head -c 200)"; exit 1; }
 n=0
-for t in "$IN"/*_test.go; do [ -f "$t" ] && cp "$t" "$WT/zz_demo${n}_test.go" && n=$((n+1)); done
+PKG=.
+for t in "$IN"/*_test.go; do
+  [ -f "$t" ] || continue
+  # a demonstration for internal/ztest lives in that package
+  if grep -q '^package ztest' "$t"; then PKG=./internal/ztest; fi
+  cp "$t" "$WT/$PKG/zz_demo${n}_test.go" && n=$((n+1))
+done
 [ $n -gt 0 ] || { res "REJECT no demo test"; exit 1; }
-timeout 300 go test -vet=off -count=1 -tags mutantdemo -run 'Demo|Mutant' -timeout 4m . > "$LOG.with" 2>&1
+timeout 300 go test -vet=off -count=1 -tags mutantdemo -run 'Demo|Mutant' -timeout 4m $PKG > "$LOG.with" 2>&1
 with=$?
 git checkout -q -- . 2>>"$LOG"
-timeout 300 go test -vet=off -count=1 -tags mutantdemo -run 'Demo|Mutant' -timeout 4m . > "$LOG.without" 2>&1
+timeout 300 go test -vet=off -count=1 -tags mutantdemo -run 'Demo|Mutant' -timeout 4m $PKG > "$LOG.without" 2>&1
 without=$?
 if [ $with -eq 0 ]; then res "REJECT demo passes with the change"; exit 1; fi
 if [ $without -ne 0 ]; then res "REJECT demo fails without the change (rc=$without)"; exit 1; fi
